@@ -16,7 +16,8 @@ OwnReply == \A k \in 1..Len(R.replies) : LET c == R.replies[k] IN c.done /\ c.st
 \* no lost or duplicated executions
 ExecOnce == \A k \in 1..Len(R.replies) : LET c == R.replies[k] IN
               /\ c.execs = 1
-              /\ (c.kind = "batch" => c.execs2 = 1) /\ (c.kind = "notify" => c.note = 1) /\ (c.kind = "fail" => c.boom = 1)
+              /\ (c.kind = "batch" => c.execs2 = 1) /\ (c.kind = "notify" => c.note = 1) /\ (c.kind \in {"fail", "failhard"} => c.boom = 1)
+              /\ (c.kind = "rawid" => c.restricted = 3)
 SocketClosedAfter == R.closed => R.fileno = -1
 PoolWorkersDieAfter == R.closed => R.alive_workers = <<>>
 Flag(name) == PrintT(<<"PROPFAIL", i, name>>)
